@@ -692,6 +692,11 @@ func runC05(c *config) {
 		{"define void @f(i32, i32 %0) {\n\tret void\n}\n", "", "Err"},
 		{"define void @f(i32) {\n0:\n\tret void\n}\n", "", "Err"},
 		{"declare void @f(i32 %5)\n", "", "Err"},
+		// ... and on the value terminators (invoke, callbr, catchswitch), whose identifiers are read at another site
+		{"declare i32 @g()\ndefine i32 @f(i32) personality i8* null {\nentry:\n\t%0 = invoke i32 @g() to label %a unwind label %b\na:\n\tret i32 %0\nb:\n\t%l = landingpad i32 cleanup\n\tret i32 0\n}\n", "", "Err"},
+		{"declare i32 @g()\ndefine i32 @f() {\nentry:\n\t%x = add i32 1, 2\n\tbr label %n\nn:\n\t%0 = callbr i32 @g() to label %a []\na:\n\tret i32 %0\n}\n", "", "Ok"},
+		{"declare i32 @g()\ndefine i32 @f() {\n\t%0 = callbr i32 @g() to label %a []\na:\n\tret i32 %0\n}\n", "", "Err"},
+		{"define void @f() personality i8* null {\nentry:\n\t%y = add i32 1, 2\n\t%1 = add i32 1, %y\n\tbr label %cs\ncs:\n\t%0 = catchswitch within none [label %h] unwind to caller\nh:\n\t%p = catchpad within %0 []\n\tunreachable\n}\n", "", "Err"},
 		{"define i32 @f(i32 %x) {\nentry:\n\t%0 = add i32 %x, 1\n\tret i32 %0\n}\n", "", "Ok"},
 		{"define void @f(i32 %x, i32 %0) {\n\tret void\n}\n", "", "Ok"},
 	} {
@@ -884,7 +889,7 @@ func runC12(c *config) {
 			}
 		}
 		// every entry point
-		var viaBytes, viaReader, viaFile string
+		var viaBytes, viaReader, viaFile, viaOSFile string
 		guard(func() error {
 			// the caller's buffer is the caller's: it is reused (overwritten with another input, then cleared)
 			// between the parse and the print, as a read loop over many files would do
@@ -908,6 +913,20 @@ func runC12(c *config) {
 			m, err = asm.ParseFile(tmp)
 			os.Remove(tmp)
 			viaFile = entryDigest(m, err)
+			// a reader that happens to be a file: positioned after bytes that are no assembly, and already unlinked
+			// (what the reader delivers is the input, not what its name denotes)
+			tmp2 := filepath.Join(os.TempDir(), fmt.Sprintf("verif-c12r-%d.ll", os.Getpid()))
+			prefix := "@@@ not assembly @@@\n"
+			os.WriteFile(tmp2, []byte(prefix+src), 0o600)
+			if fh, e := os.Open(tmp2); e == nil {
+				fh.Seek(int64(len(prefix)), 0)
+				os.Remove(tmp2)
+				m, err = asm.Parse("x.ll", fh)
+				fh.Close()
+				viaOSFile = entryDigest(m, err)
+			} else {
+				viaOSFile = viaReader
+			}
 			return nil
 		})
 		m0, err0 := func() (m *ir.Module, err error) {
@@ -915,6 +934,9 @@ func runC12(c *config) {
 			return asm.ParseString("x.ll", src)
 		}()
 		viaString := entryDigest(m0, err0)
+		if viaOSFile != viaReader && bad == "" {
+			bad = fmt.Sprintf("a reader that is an *os.File (positioned, unlinked) is read differently: %s vs %s", viaOSFile, viaReader)
+		}
 		if viaBytes != viaString || viaReader != viaString || (viaFile != viaString && !strings.Contains(viaString, "source_filename")) {
 			if bad == "" && !(viaString == "rejected" && viaBytes == "rejected") {
 				bad = fmt.Sprintf("entry points disagree: string %s bytes %s reader %s file %s", viaString, viaBytes, viaReader, viaFile)
